@@ -277,10 +277,20 @@ static void build(hdr_t *h, int kind, vh_rng_t *r, bool random_skip_bytes)
 		if (cb == 22) {
 			put16(h, bytes * 8 - vh_below(r, 2) * 4);
 			put32(h, (1u << chs) - 1);
-			for (int i = 0; i < 16; i++) {
-				uint8_t x = (uint8_t)vh_next(r);
+			/* the sub-format GUID: its first two bytes are a format tag of their own (PCM, float, "extensible" again,
+			 * none, all ones, something else), the rest is the standard suffix or noise */
+			static const uint16_t tags[] = { 1, 3, 0xfffe, 0, 0xffff, 0x0055 };
+			static const uint8_t ks_suffix[14] = { 0x00, 0x00, 0x00, 0x00, 0x10, 0x00, 0x80, 0x00, 0x00, 0xaa, 0x00, 0x38, 0x9b, 0x71 };
+			uint32_t tsel = vh_below(r, 8);
+			uint16_t tag = tsel < 6 ? tags[tsel] : (uint16_t)vh_next(r);
+			bool std_suffix = vh_below(r, 2);
+			put16(h, tag);
+			for (int i = 0; i < 14; i++) {
+				uint8_t x = std_suffix ? ks_suffix[i] : (uint8_t)vh_next(r);
 				put(h, &x, 1);
 			}
+			if (tag == 0xfffe)
+				VH_COUNT("headers_whose_sub_format_tag_is_extensible_again");
 		} else {
 			for (uint32_t i = 0; i < fmt_size - 18; i++) {
 				uint8_t x = random_skip_bytes ? (uint8_t)vh_next(r) : 0;
